@@ -266,8 +266,12 @@ class ValidateStream:
         case = []
         for _ in range(rng.randint(5, 15)):
             r = rng.random()
-            if r < 0.5:
+            if r < 0.3:
                 case.append("filter " + hx(self.rand_str(rng)))
+            elif r < 0.55:
+                case.append(self.gen_sub(rng))
+            elif r < 0.62:
+                case.append(self.gen_unsub(rng))
             else:
                 proto = rng.choice([3, 4, 5])
                 topic = self.rand_str(rng, wild=rng.random() < 0.3)
@@ -287,6 +291,53 @@ class ValidateStream:
                     n = 0
                 case.append(f"publish {proto} {hx(topic)} {qos} {tag} {n}")
         return case
+
+    # subscribe()'s calling conventions: string / tuple / list of tuples, an int QoS or a SubscribeOptions object (given as
+    # its options byte), plus the qos= and options= keywords; unsubscribe(): string / list
+    def rand_filter_arg(self, rng, long_ok=True):
+        r = rng.random()
+        if r < 0.55:
+            return rng.choice(["a", "a/b", "+/x", "#", "a/#", "$SYS/#", "é/+", "/", "+"])
+        while True:
+            x = self.rand_str(rng)
+            # (unsubscribe() does not check the 65535-byte limit itself: struct.error from the encoder, not modelled here)
+            if long_ok or len(x) < 1000:
+                return x
+
+    @staticmethod
+    def rand_second(rng, proto):
+        r = rng.random()
+        if r < (0.45 if proto == 5 else 0.12):
+            return "o" + str((rng.choice([0, 1, 2]) << 4) | (rng.randrange(2) << 3) | (rng.randrange(2) << 2) | rng.choice([0, 1, 2]))
+        return "i" + str(rng.choice([0, 1, 2, 0, 1, 2, 0, 1, 2, -1, 3, 7]))
+
+    def gen_sub(self, rng):
+        proto = rng.choice([3, 4, 5, 5])
+        qos = rng.choice([0, 0, 0, 0, 1, 2, 1, 2, -1, 3])
+        r = rng.random()
+        opt = "-" if r < 0.6 else ("x" if r > 0.93 else
+                                   "o" + str((rng.choice([0, 1, 2]) << 4) | (rng.randrange(2) << 3) | (rng.randrange(2) << 2) | rng.choice([0, 1, 2])))
+        form = rng.random()
+        if form < 0.3:
+            return f"sub {proto} str {hx(self.rand_filter_arg(rng)) or '-'} {qos} {opt}"
+        if form < 0.55:
+            return f"sub {proto} tuple {hx(self.rand_filter_arg(rng)) or '-'} {self.rand_second(rng, proto)} {qos} {opt}"
+        if form < 0.95:
+            n = rng.choice([0, 1, 1, 2, 2, 3, 4])
+            l = ",".join(f"{hx(self.rand_filter_arg(rng)) or '-'}:{self.rand_second(rng, proto)}" for _ in range(n)) or "-"
+            return f"sub {proto} list {l} {qos} {opt}"
+        return f"sub {proto} none {qos} {opt}"
+
+    def gen_unsub(self, rng):
+        r = rng.random()
+        if r < 0.1:
+            return "unsub none"
+        if r < 0.15:
+            return "unsub other"
+        if r < 0.45:
+            return f"unsub str {hx(self.rand_filter_arg(rng, long_ok=False)) or '-'}"
+        n = rng.choice([0, 1, 1, 2, 3])
+        return "unsub list " + (",".join(hx(self.rand_filter_arg(rng, long_ok=False)) or "-" for _ in range(n)) or "-")
 
     @staticmethod
     def rand_str(rng, wild=True):
@@ -342,6 +393,8 @@ class ValidateStream:
                         obs.append("true")
                     except ValueError:
                         obs.append("false")
+                elif t[0] in ("sub", "unsub"):
+                    obs.append(self.real_sub(t))
                 elif t[0] == "publish":
                     proto = int(t[1])
                     w = World()
@@ -357,12 +410,161 @@ class ValidateStream:
                 obs.append("exc " + type(e).__name__)
         return obs
 
+    @staticmethod
+    def short(f: bytes) -> str:
+        return f"L{len(f)}.{f[:4].hex()}" if len(f) > 40 else (f.hex() or "-")
+
+    @staticmethod
+    def mk_opts(byte):
+        from paho.mqtt.subscribeoptions import SubscribeOptions
+        return SubscribeOptions(qos=byte & 3, noLocal=bool(byte & 4), retainAsPublished=bool(byte & 8), retainHandling=(byte >> 4) & 3)
+
+    def mk_second(self, x):
+        return int(x[1:]) if x[0] == "i" else self.mk_opts(int(x[1:]))
+
+    def real_sub(self, t):
+        """run subscribe()/unsubscribe() of the real client on an established connection; observation = the (filter, options
+        byte) list of the SUBSCRIBE packet actually written, or the exception; a rejected call must leave no trace"""
+        def s_(h):
+            return "" if h == "-" else unhx(h).decode("utf-8", "surrogatepass")
+        proto = int(t[1]) if t[0] == "sub" else 4
+        w = World()
+        c = mk_client(w, proto=proto)
+        connect(c, w, proto=proto)
+        sock = w.cur()
+        before = (len(sock.wire), c._last_mid, len(c._out_packet), len(c._out_messages), c._inflight_messages)
+        try:
+            if t[0] == "sub":
+                form = t[2]
+                if form == "str":
+                    arg, qos, opt = s_(t[3]), int(t[4]), t[5]
+                elif form == "tuple":
+                    arg, qos, opt = (s_(t[3]), self.mk_second(t[4])), int(t[5]), t[6]
+                elif form == "list":
+                    arg = [] if t[3] == "-" else [(s_(e.split(":")[0]), self.mk_second(e.split(":")[1])) for e in t[3].split(",")]
+                    qos, opt = int(t[4]), t[5]
+                else:
+                    arg, qos, opt = None, int(t[3]), t[4]
+                options = None if opt == "-" else (object() if opt == "x" else self.mk_opts(int(opt[1:])))
+                c.subscribe(arg, qos, options)
+            else:
+                form = t[1]
+                arg = None if form == "none" else (17 if form == "other" else (s_(t[2]) if form == "str" else
+                                                                              ([] if t[2] == "-" else [s_(h) for h in t[2].split(",")])))
+                c.unsubscribe(arg)
+        except Exception as e:  # noqa: BLE001
+            after = (len(sock.wire), c._last_mid, len(c._out_packet), len(c._out_messages), c._inflight_messages)
+            name = "struct.error" if type(e).__name__ == "error" else type(e).__name__
+            return name + ("" if after == before else f" DIRTY wire+{after[0] - before[0]} last_mid {before[1]}->{after[1]} queued {after[2]}")
+        data = bytes(sock.wire[before[0]:])
+        try:
+            pk, rest = wire.split_packets(data)
+            if rest or len(pk) != 1:
+                return f"ok UNFRAMED {len(pk)} packets, {len(rest)} trailing bytes"
+            body = pk[0]
+            # lenient parse of the SUBSCRIBE / UNSUBSCRIBE payload (the strict decoder is the C04 monitor's business)
+            pos = 1
+            while body[pos] & 0x80:
+                pos += 1
+            pos += 1 + 2
+            if proto == 5:
+                pl = body[pos]
+                if pl & 0x80:
+                    return "ok PROPS?"
+                pos += 1 + pl
+            out = []
+            while pos < len(body):
+                n = (body[pos] << 8) | body[pos + 1]
+                f = body[pos + 2:pos + 2 + n]
+                pos += 2 + n
+                if t[0] == "sub":
+                    out.append(f"{self.short(f)}:{body[pos]}")
+                    pos += 1
+                else:
+                    out.append(self.short(f))
+            return "ok " + ",".join(out)
+        except IndexError:
+            return "ok TRUNCATED " + data[:16].hex()
+
     # ---- independent oracle written from the property text
+    def expect_sub(self, t):
+        """(accepted?, expected (filter, byte) list) from the MQTT grammar and the documented calling conventions; None = not judged"""
+        def b_(h):
+            return b"" if h == "-" else unhx(h)
+        proto = int(t[1])
+        form = t[2]
+        if form == "none":
+            return False, None
+        if form == "str":
+            pairs, qos, opt = [(b_(t[3]), None)], int(t[4]), t[5]
+        elif form == "tuple":
+            pairs, qos, opt = [(b_(t[3]), t[4])], int(t[5]), t[6]
+        else:
+            pairs = [] if t[3] == "-" else [(b_(e.split(":")[0]), e.split(":")[1]) for e in t[3].split(",")]
+            qos, opt = int(t[4]), t[5]
+        if form == "list":
+            if not pairs:
+                return False, None
+            exp = []
+            for f, x in pairs:
+                if x[0] == "o":
+                    if proto != 5:
+                        return False, None      # a SubscribeOptions object is meaningless for MQTT 3
+                    exp.append((f, int(x[1:])))
+                else:
+                    if not 0 <= int(x[1:]) <= 2:
+                        return False, None
+                    exp.append((f, int(x[1:])))
+            ok = all(wire.valid_filter(f) for f, _ in exp)
+            return ok, exp
+        f, x = pairs[0]
+        if form == "tuple":
+            if proto == 5:
+                if x[0] != "o":
+                    return False, None          # documented: (topic, SubscribeOptions)
+                if not 0 <= qos <= 2 or qos != 0:
+                    return False, None          # options and a non-zero qos cannot be combined
+                return wire.valid_filter(f), [(f, int(x[1:]))]
+            if x[0] == "o":
+                return None, None               # undocumented for MQTT 3: not judged
+            q = int(x[1:])
+            return (0 <= q <= 2 and wire.valid_filter(f)), [(f, q)]
+        # string form
+        if not 0 <= qos <= 2:
+            return False, None
+        if proto == 5 and opt != "-":
+            if opt == "x" or qos != 0:
+                return False, None
+            return wire.valid_filter(f), [(f, int(opt[1:]))]
+        return wire.valid_filter(f), [(f, qos)]
+
     def monitor_C19(self, case, obs):
         hits = []
         for i, (line, o) in enumerate(zip(case, obs)):
             t = line.split()
-            if t[0] == "filter":
+            if t[0] == "sub":
+                acc, exp = self.expect_sub(t)
+                if acc is None:
+                    continue
+                if acc:
+                    want = "ok " + ",".join(f"{self.short(f)}:{b}" for f, b in exp)
+                    if o != want:
+                        hits.append((i, "subscribe-args", f"{line[:90]}: documented and grammatical, expected SUBSCRIBE of {want[3:][:60]}, got {o[:80]}"))
+                elif o != "ValueError":
+                    hits.append((i, "subscribe-args", f"{line[:90]}: must be rejected with ValueError and no other effect, got {o[:100]}"))
+            elif t[0] == "unsub":
+                if t[1] in ("none", "other"):
+                    want = "ValueError"
+                elif t[1] == "str":
+                    want = "ValueError" if t[2] == "-" else "ok " + self.short(unhx(t[2]))
+                else:
+                    fs = [] if t[2] == "-" else [b"" if h == "-" else unhx(h) for h in t[2].split(",")]
+                    if not fs:
+                        continue                 # the empty list: C04's clause (a packet without a filter cannot be represented)
+                    want = "ValueError" if any(len(f) == 0 for f in fs) else "ok " + ",".join(self.short(f) for f in fs)
+                if o != want and not (want.startswith("ok") and o in ("struct.error", "ValueError") and any(len(unhx(h)) > 65535 for h in t[2].split(",") if h != "-")):
+                    hits.append((i, "unsubscribe-args", f"{line[:90]}: expected {want[:60]}, got {o[:100]}"))
+            elif t[0] == "filter":
                 f = unhx(t[1])
                 exp = "true" if wire.valid_filter(f) else "false"
                 if o != exp:
@@ -393,6 +595,12 @@ class ValidateStream:
         f = set()
         for line, o in zip(case, obs):
             t = line.split()
+            if t[0] == "sub":
+                f.add(f"sub-v{t[1]}-{t[2]}-{o.split()[0]}" + ("-multi" if "," in o else ""))
+                continue
+            if t[0] == "unsub":
+                f.add(f"unsub-{t[1]}-{o.split()[0]}")
+                continue
             f.add(t[0] + "-" + o)
             if t[0] == "filter" and len(t[1]) > 100000:
                 f.add("long-filter-" + o)
